@@ -145,6 +145,14 @@ func Open(t *testing.T, prop string) *Session {
 	return s
 }
 
+// Scratch returns a session that only counts (no output file, no known
+// findings); used by native fuzz targets, which run the property functions
+// outside the driver's shard protocol.
+func Scratch(prop string) *Session {
+	return &Session{Prop: prop, Tier: "thorough", NShards: 1, known: map[string]KnownFinding{}, startedAt: time.Now(),
+		hashes: map[uint64]struct{}{}, hashCap: 1 << 12, classes: map[string]int64{}, knownHits: map[string]*KnownHit{}, extra: map[string]any{}, sampleEvery: 1}
+}
+
 // IsKnown reports whether finding id is listed with status "known".
 func (s *Session) IsKnown(id string) bool {
 	k, ok := s.known[id]
